@@ -629,6 +629,12 @@ def gen_case(rng, ens, tier, max_trials=None):
         pv = rng.random()
         tr = {"name": e["name"], "verdict": pv < 0.5, "draws": [rng.randrange(1000) for _ in range(10)], "ops": ops,
               "checks": [rng.random() < 0.7 for _ in range(12)], "presel": []}
+        # boundary of the insertion/deletion coin: `random() < bias` with the draw exactly AT the bias (-> deletion)
+        xrefs = [r for r in tree_refs(e["tree"]) if objs[r]["kind"] == "exch"]
+        if xrefs and rng.random() < 0.15:
+            b = e["tree"][2] if e["tree"][0] == "X" else objs[xrefs[0]].get("bias", 500)
+            if 0 < b < 1000:
+                tr["draws"][0] = b + rng.choice([0, 0, -1, 1])
         if rng.random() < 0.12:
             refs = [r for r in tree_refs(e["tree"]) if objs[r]["kind"] in ("disp", "exch")]
             if refs and e["tree"][0] == "L":
